@@ -178,7 +178,11 @@ MUTANTS = [
             raise ValueError("Path can not be empty.")
 """, """""")]},
     {"name": "c12-modules-modulemd-path-overwrites-categories", "prop": "C12", "edits": [(MO, """        metadata.setdefault("modulemd_path", {})[category] = modulemd_path""", """        metadata["modulemd_path"] = {category: modulemd_path}""")]},
-    {"name": "c16-add_checksum-overwrites-md5", "prop": "C16", "edits": [(IM, """            if checksum_value and checksum_value != self.checksums[checksum_type]:""", """            if checksum_value and checksum_value != self.checksums[checksum_type] and checksum_type != "md5":""")]},
+    {"name": "c16-add_checksum-overwrites-md5", "prop": "C16", "edits": [(IM, """            if checksum_value and checksum_value != self.checksums[checksum_type]:
+                raise ValueError""", """            if checksum_value and checksum_value != self.checksums[checksum_type] and checksum_type == "md5":
+                self.checksums[checksum_type] = checksum_value
+            elif checksum_value and checksum_value != self.checksums[checksum_type]:
+                raise ValueError""")]},
     {"name": "c16-explicit-value-recorded-under-raw-path", "prop": "C16", "edits": [(TI, """        if not checksum_value:
             absolute_path = os.path.join(root_dir, relative_path)""", """        if checksum_value:
             self.checksums[relative_path + "/."] = [checksum_type, checksum_value]
